@@ -53,7 +53,7 @@ type Violation struct {
 	Mismatch *Mismatch  `json:"mismatch"`
 	AvgModel *Mismatch  `json:"mismatch_against_avg_variant,omitempty"`
 	Kind     string     `json:"kind"` // violation | known:D2
-	Cmds     []Cmd      `json:"-"`
+	Cmds     []Cmd      `json:"Cmds"`
 }
 
 type Result struct {
